@@ -24,11 +24,13 @@ def plan(tier):
             {"fam": "avl", "trace": "IntervalIndexTrace"},
             {"fam": "iitree", "trace": "IntervalIndexTrace"},
             {"fam": "annot", "trace": "IntervalIndexTrace"},
+            {"fam": "ivbig", "trace": "IntervalIndexTrace", "shards": 4},
         ],
         "required_obligations": ["tlc_behaviours_replayed", "ascending", "descending", "many_equal_starts",
                                  "large_tree", "from_iter", "query_unindexed_refused",
                                  "insert_after_index_then_refused", "reindexed",
-                                 "interior_levels_above_leaf_level", "query_absent_refid"],
+                                 "interior_levels_above_leaf_level", "query_absent_refid",
+                                 "array_tree_half_million_entries", "avl_half_million_entries"],
         "rule": "AVL: transition cover of the TLC state graph of the AVL machine (one behaviour per transition "
                 "from every distinct tree shape with <=5 (quick) / <=6 (thorough) intervals over 4 starts x 2 widths) "
                 "replayed into the real IntervalTree; the hook shape after EVERY insert must equal the model tree "
@@ -36,7 +38,9 @@ def plan(tier):
                 "its mutation; plus random histories n<=300 (ascending/descending/zig-zag/equal starts/nested). "
                 "Array tree: every n in 1..70 and random n<=300, hook array (order, every max, max_level) must equal "
                 "the model after each index; un-indexed queries refused; re-index after further inserts. "
-                "Annotation map: 3 reference ids + an absent one",
+                "Annotation map: 3 reference ids + an absent one, negative coordinates. Huge trees (2^19 .. 2^20+3 "
+                "entries, ascending and descending insertion) are arithmetic families [a*i, a*i+w) whose overlap "
+                "sets the spec knows in closed form (lemma checked by TLC against the definition for small n)",
         "bounds": {"mc": "AVL: 4 starts x 2 widths, all histories <=5(6) inserts, 21 queries per state; array tree: "
                          "4 starts x 2(3) widths, <=5(6) inserts interleaved with index, leaf level 0 and 1",
                    "impl": "n<=300 entries, coordinates |x|<=400"},
